@@ -283,3 +283,10 @@ w("C10", "String coercion helper: reverter only bound on the pyspark branch", "p
 w("C06", "twin: defaults of check_dtype moved into an else branch", BP + "array.py",
   "        passed = True\n        failure_cases = None\n        msg = None\n\n        if schema.dtype is not None:\n            dtype_check_results = schema.dtype.check(",
   "        passed = True\n        failure_cases = None\n        if schema.dtype is None:\n            msg = None\n        else:\n            msg = None\n\n        if schema.dtype is not None:\n            dtype_check_results = schema.dtype.check(", "twin")
+
+# ---- C11.R6 (labels survive delegation; the defect repaired by 6c4f493 must be reported again if it returns) --------
+w("C11", "index checks validated on a positional copy again", BP + "components.py",
+  "                check_obj.index.to_series(),\n", "                check_obj.index.to_series().reset_index(drop=True),\n")
+w("C11", "twin: index series bound to a local first", BP + "components.py",
+  "        try:\n            _validated_obj = super().validate(\n                check_obj.index.to_series(),\n",
+  "        index_series = check_obj.index.to_series()\n        try:\n            _validated_obj = super().validate(\n                index_series,\n", "twin")
